@@ -4,5 +4,6 @@ CONSTANTS
 INVARIANT GenOK
 INVARIANT GenTypeOK
 INVARIANT GenWalkAgrees
+INVARIANT GenCmdAgrees
 INVARIANT Emit
 CHECK_DEADLOCK FALSE
